@@ -176,7 +176,7 @@ def corral_grid(sym, eta, T, mode):
         sym.check(all(w > 0 for w in ps) and abs(sum(ps)-1) < 1e-3, f"after learn Corral weights {ps} are not a strictly positive distribution (1e-3)")
 
 @obligation('C16','corral_long', bounds="NOT symbolic: concrete runs of 120 rounds. Corral over 2 deterministic base learners picking different actions, Random+BanditEpsilon, or four FixedLearners (optionally taught with a small logged probability .05); eta in {0.5,1}; finite horizons T in {4,20,1000} and inf; both modes; reward schedule in {always 0, always 1, 1 only for the first base learner's pick, alternating}: after every round the base-learner weights (raw and smoothed) are a strictly positive distribution and the reported probability is in (0,1]",
-            functions=FUNCS, params=lambda tier: [dict(eta=e, T=T, mode=m) for e in (0.5,1) for T in (4,20,1000,math.inf) for m in ('importance','off-policy')], classify=_classify)
+            functions=FUNCS, params=lambda tier: [dict(eta=e, T=T, mode=m) for e in (0.5,1) for T in (4,20,1000,math.inf) for m in ('importance','off-policy')] + [dict(eta=e, T=math.inf, mode=m) for e in (3,5) for m in ('importance','off-policy')], classify=_classify)      # large learning rates: the root search of the log-barrier update needs its full precision
 def corral_long(sym, eta, T, mode):
     bases = sym.choice('bases', ['disagree','builtin','four_fixed'])
     sched = sym.choice('rewards', ['zero','one','first','alternate'])
@@ -217,3 +217,23 @@ def zero_draw(sym, kind):
     sym.check(a in actions, f"{kind}: predicted {a!r} is not offered")
     sym.check(p > 0, f"{kind}: at a uniform draw of exactly 0.0 the learner returned {a!r} with probability {p}")
     sym.check(abs(lrn.score(None, actions, a) - p) < 1e-9, f"{kind}: the reported probability {p} is not score(action) = {lrn.score(None, actions, a)}")
+
+
+@obligation('C16','action_set_history', bounds="Corral (2 deterministic bases picking different positions, or Random+BanditEpsilon) and the SafeLearner-wrapped built-in bandits over a history of 3-4 rounds whose offered action sets change between sets that contain the int labels 0/1 and sets that do not (A,B,A / B,A,B / A,A,B,A; A in {[0,1,2],[1,2,3]}, B in {[10,11,12],[5,6]}): every prediction is an offered action with a probability in (0,1], nothing raises (Corral's score() re-samples its stochastic bases on every call, so a sum over separate score() calls is not required to be 1)",
+            functions=FUNCS+['coba.safety:SafeLearner.predict'], params=lambda tier: [dict(kind=k, pat=p) for k in ('corral_disagree','corral_builtin','eps','ucb','random') for p in ('ABA','BAB','AABA')], classify=_classify)
+def action_set_history(sym, kind, pat):
+    from coba.safety import SafeLearner
+    A = sym.choice('A', [[0,1,2],[1,2,3]]); B = sym.choice('B', [[10,11,12],[5,6]])
+    mode = sym.choice('mode', ['importance','off-policy'])
+    if kind == 'corral_disagree': lrn = CorralLearner([_Base(0),_Base(1)], eta=.5, mode=mode, seed=1)
+    elif kind == 'corral_builtin': lrn = CorralLearner([RandomLearner(1), BanditEpsilonLearner(.1,2)], eta=.5, mode=mode, seed=1)
+    else: lrn = SafeLearner({'eps': lambda: BanditEpsilonLearner(.1,2), 'ucb': lambda: BanditUCBLearner(2), 'random': lambda: RandomLearner(1)}[kind](), 3)
+    for t,c in enumerate(pat):
+        actions = list(A if c == 'A' else B)
+        try: pred = lrn.predict(None, actions)
+        except Exception as e: sym.fail(f"round {t}: predict raised {type(e).__name__}: {e} (history {pat[:t+1]}, A={A}, B={B})")
+        a, p, kw = pred[0], pred[1], (pred[2] if len(pred) > 2 else {})
+        sym.check(any(a == x and type(a) is type(x) or a == x for x in actions), f"round {t}: predict returned {a!r} which is not among the offered {actions} (history {pat[:t+1]})")
+        sym.check(0 < p <= 1+1e-9, f"round {t}: probability {p}")
+        try: lrn.learn(None, a, (t % 2), p, **kw)
+        except Exception as e: sym.fail(f"round {t}: learn raised {type(e).__name__}: {e} (history {pat[:t+1]})")
